@@ -10,7 +10,7 @@ IMPORTS = textprop.IMPORTS + '\nFrom SCAD Require Import Macro.Syntax Gen.MacroA
 BITS = {1: 'the macro call panicked', 2: 'variant or a field value differs from the regenerated template', 4: 'children differ (count, order or content)',
         8: 'evaluation counts differ from what the template says (translator and rustc disagree)', 16: 'an argument or child expression was not evaluated exactly once'}
 def run(ctx):
-    rounds = 3 if ctx['tier'] == 'quick' else 40
+    rounds = (3 if ctx['tier'] == 'quick' else 40) * ctx.get('boost', 1)
     rc, out = vlib.harness_run(['macros', ctx['seed'], rounds], timeout=900)
     if rc != 0: raise RuntimeError('harness macros failed: ' + out[-2000:])
     chunks = out.split('@@CASE@@ ')[1:]
